@@ -178,3 +178,309 @@ Example C13_example :
   map (map Qred) (q_revolve_cps [[1; 0; 0; 1]; [2; 0; 1; 1]]%Q [[1; 0; 1]; [(3#5); (4#5); (1#2)]]%Q)
   = [[1; 0; 0; 1]; [2; 0; 1; 1]; [(3#5); (4#5); 0; (1#2)]; [(6#5); (8#5); (1#2); (1#2)]]%Q.
 Proof. vm_compute. repeat split; reflexivity. Qed.
+
+(* ------------------------------------------------------------------------------------------------------
+   Added in build session 4 (statements re-stated from the proof files by harness tooling; each is closed by
+   exact). *)
+From SplipyModel Require Import Proofs.CompositeShapes.
+Open Scope R_scope.
+Theorem C13_sphere_from_revolve_net :
+  forall (prof seg : list (list R)) (M N : list R),
+         wsum M (fun i : nat => nth 0 (nth i seg []) 0) * wsum M (fun i : nat => nth 0 (nth i seg []) 0) +
+         wsum M (fun i : nat => nth 1 (nth i seg []) 0) * wsum M (fun i : nat => nth 1 (nth i seg []) 0) =
+         wsum M (fun i : nat => nth 2 (nth i seg []) 0) * wsum M (fun i : nat => nth 2 (nth i seg []) 0) ->
+         wsum M (fun i : nat => nth 2 (nth i seg []) 0) <> 0 ->
+         wsum N (fun j : nat => nth 3 (nth j prof []) 0) <> 0 ->
+         forall r : R,
+         wsum N (fun j : nat => nth 0 (nth j prof []) 0) / wsum N (fun j : nat => nth 3 (nth j prof []) 0) *
+         (wsum N (fun j : nat => nth 0 (nth j prof []) 0) / wsum N (fun j : nat => nth 3 (nth j prof []) 0)) +
+         wsum N (fun j : nat => nth 1 (nth j prof []) 0) / wsum N (fun j : nat => nth 3 (nth j prof []) 0) *
+         (wsum N (fun j : nat => nth 1 (nth j prof []) 0) / wsum N (fun j : nat => nth 3 (nth j prof []) 0)) +
+         wsum N (fun j : nat => nth 2 (nth j prof []) 0) / wsum N (fun j : nat => nth 3 (nth j prof []) 0) *
+         (wsum N (fun j : nat => nth 2 (nth j prof []) 0) / wsum N (fun j : nat => nth 3 (nth j prof []) 0)) = 
+         r * r ->
+         wsum M (fun i : nat => wsum N (fun j : nat => nth 0 (revolve_row (nth i seg []) (nth j prof [])) 0)) /
+         wsum M (fun i : nat => wsum N (fun j : nat => nth 3 (revolve_row (nth i seg []) (nth j prof [])) 0)) *
+         (wsum M (fun i : nat => wsum N (fun j : nat => nth 0 (revolve_row (nth i seg []) (nth j prof [])) 0)) /
+          wsum M (fun i : nat => wsum N (fun j : nat => nth 3 (revolve_row (nth i seg []) (nth j prof [])) 0))) +
+         wsum M (fun i : nat => wsum N (fun j : nat => nth 1 (revolve_row (nth i seg []) (nth j prof [])) 0)) /
+         wsum M (fun i : nat => wsum N (fun j : nat => nth 3 (revolve_row (nth i seg []) (nth j prof [])) 0)) *
+         (wsum M (fun i : nat => wsum N (fun j : nat => nth 1 (revolve_row (nth i seg []) (nth j prof [])) 0)) /
+          wsum M (fun i : nat => wsum N (fun j : nat => nth 3 (revolve_row (nth i seg []) (nth j prof [])) 0))) +
+         wsum M (fun i : nat => wsum N (fun j : nat => nth 2 (revolve_row (nth i seg []) (nth j prof [])) 0)) /
+         wsum M (fun i : nat => wsum N (fun j : nat => nth 3 (revolve_row (nth i seg []) (nth j prof [])) 0)) *
+         (wsum M (fun i : nat => wsum N (fun j : nat => nth 2 (revolve_row (nth i seg []) (nth j prof [])) 0)) /
+          wsum M (fun i : nat => wsum N (fun j : nat => nth 3 (revolve_row (nth i seg []) (nth j prof [])) 0))) = 
+         r * r.
+Proof. exact @sphere_from_revolve_net. Qed.
+Print Assumptions C13_sphere_from_revolve_net.
+
+Theorem C13_torus_from_revolve_net :
+  forall (prof seg : list (list R)) (M N : list R),
+         wsum M (fun i : nat => nth 0 (nth i seg []) 0) * wsum M (fun i : nat => nth 0 (nth i seg []) 0) +
+         wsum M (fun i : nat => nth 1 (nth i seg []) 0) * wsum M (fun i : nat => nth 1 (nth i seg []) 0) =
+         wsum M (fun i : nat => nth 2 (nth i seg []) 0) * wsum M (fun i : nat => nth 2 (nth i seg []) 0) ->
+         wsum M (fun i : nat => nth 2 (nth i seg []) 0) <> 0 ->
+         wsum N (fun j : nat => nth 3 (nth j prof []) 0) <> 0 ->
+         forall r Rr : R,
+         wsum N (fun j : nat => nth 1 (nth j prof []) 0) / wsum N (fun j : nat => nth 3 (nth j prof []) 0) = 0 ->
+         (wsum N (fun j : nat => nth 0 (nth j prof []) 0) / wsum N (fun j : nat => nth 3 (nth j prof []) 0) - Rr) *
+         (wsum N (fun j : nat => nth 0 (nth j prof []) 0) / wsum N (fun j : nat => nth 3 (nth j prof []) 0) - Rr) +
+         wsum N (fun j : nat => nth 2 (nth j prof []) 0) / wsum N (fun j : nat => nth 3 (nth j prof []) 0) *
+         (wsum N (fun j : nat => nth 2 (nth j prof []) 0) / wsum N (fun j : nat => nth 3 (nth j prof []) 0)) = 
+         r * r ->
+         let X :=
+           wsum M (fun i : nat => wsum N (fun j : nat => nth 0 (revolve_row (nth i seg []) (nth j prof [])) 0)) /
+           wsum M (fun i : nat => wsum N (fun j : nat => nth 3 (revolve_row (nth i seg []) (nth j prof [])) 0)) in
+         let Y :=
+           wsum M (fun i : nat => wsum N (fun j : nat => nth 1 (revolve_row (nth i seg []) (nth j prof [])) 0)) /
+           wsum M (fun i : nat => wsum N (fun j : nat => nth 3 (revolve_row (nth i seg []) (nth j prof [])) 0)) in
+         let Z :=
+           wsum M (fun i : nat => wsum N (fun j : nat => nth 2 (revolve_row (nth i seg []) (nth j prof [])) 0)) /
+           wsum M (fun i : nat => wsum N (fun j : nat => nth 3 (revolve_row (nth i seg []) (nth j prof [])) 0)) in
+         (X * X + Y * Y + Z * Z + Rr * Rr - r * r) * (X * X + Y * Y + Z * Z + Rr * Rr - r * r) =
+         4 * (Rr * Rr) * (X * X + Y * Y) /\
+         (0 <= wsum N (fun j : nat => nth 0 (nth j prof []) 0) / wsum N (fun j : nat => nth 3 (nth j prof []) 0) ->
+          (sqrt (X * X + Y * Y) - Rr) * (sqrt (X * X + Y * Y) - Rr) + Z * Z = r * r).
+Proof. exact @torus_from_revolve_net. Qed.
+Print Assumptions C13_torus_from_revolve_net.
+
+Theorem C13_solid_torus_from_revolve_net :
+  forall (prof seg : list (list R)) (M N : list R),
+         wsum M (fun i : nat => nth 0 (nth i seg []) 0) * wsum M (fun i : nat => nth 0 (nth i seg []) 0) +
+         wsum M (fun i : nat => nth 1 (nth i seg []) 0) * wsum M (fun i : nat => nth 1 (nth i seg []) 0) =
+         wsum M (fun i : nat => nth 2 (nth i seg []) 0) * wsum M (fun i : nat => nth 2 (nth i seg []) 0) ->
+         wsum M (fun i : nat => nth 2 (nth i seg []) 0) <> 0 ->
+         wsum N (fun j : nat => nth 3 (nth j prof []) 0) <> 0 ->
+         forall r Rr : R,
+         wsum N (fun j : nat => nth 1 (nth j prof []) 0) / wsum N (fun j : nat => nth 3 (nth j prof []) 0) = 0 ->
+         0 <= wsum N (fun j : nat => nth 0 (nth j prof []) 0) / wsum N (fun j : nat => nth 3 (nth j prof []) 0) ->
+         (wsum N (fun j : nat => nth 0 (nth j prof []) 0) / wsum N (fun j : nat => nth 3 (nth j prof []) 0) - Rr) *
+         (wsum N (fun j : nat => nth 0 (nth j prof []) 0) / wsum N (fun j : nat => nth 3 (nth j prof []) 0) - Rr) +
+         wsum N (fun j : nat => nth 2 (nth j prof []) 0) / wsum N (fun j : nat => nth 3 (nth j prof []) 0) *
+         (wsum N (fun j : nat => nth 2 (nth j prof []) 0) / wsum N (fun j : nat => nth 3 (nth j prof []) 0)) <= 
+         r * r ->
+         let X :=
+           wsum M (fun i : nat => wsum N (fun j : nat => nth 0 (revolve_row (nth i seg []) (nth j prof [])) 0)) /
+           wsum M (fun i : nat => wsum N (fun j : nat => nth 3 (revolve_row (nth i seg []) (nth j prof [])) 0)) in
+         let Y :=
+           wsum M (fun i : nat => wsum N (fun j : nat => nth 1 (revolve_row (nth i seg []) (nth j prof [])) 0)) /
+           wsum M (fun i : nat => wsum N (fun j : nat => nth 3 (revolve_row (nth i seg []) (nth j prof [])) 0)) in
+         let Z :=
+           wsum M (fun i : nat => wsum N (fun j : nat => nth 2 (revolve_row (nth i seg []) (nth j prof [])) 0)) /
+           wsum M (fun i : nat => wsum N (fun j : nat => nth 3 (revolve_row (nth i seg []) (nth j prof [])) 0)) in
+         (sqrt (X * X + Y * Y) - Rr) * (sqrt (X * X + Y * Y) - Rr) + Z * Z <= r * r.
+Proof. exact @solid_torus_from_revolve_net. Qed.
+Print Assumptions C13_solid_torus_from_revolve_net.
+
+Theorem C13_cylinder_from_extrude_net :
+  forall (prof : list (list R)) (N : list R) (v h : R) (n centre : list R),
+         length N = length prof ->
+         wsum N (fun j : nat => nth 3 (nth j prof []) 0) <> 0 ->
+         forall r : R,
+         dot3 n n = 1 ->
+         dot3
+           (sub3
+              [wsum N (fun j : nat => nth 0 (nth j prof []) 0) / wsum N (fun j : nat => nth 3 (nth j prof []) 0);
+               wsum N (fun j : nat => nth 1 (nth j prof []) 0) / wsum N (fun j : nat => nth 3 (nth j prof []) 0);
+               wsum N (fun j : nat => nth 2 (nth j prof []) 0) / wsum N (fun j : nat => nth 3 (nth j prof []) 0)]
+              centre) n = 0 ->
+         dot3
+           (sub3
+              [wsum N (fun j : nat => nth 0 (nth j prof []) 0) / wsum N (fun j : nat => nth 3 (nth j prof []) 0);
+               wsum N (fun j : nat => nth 1 (nth j prof []) 0) / wsum N (fun j : nat => nth 3 (nth j prof []) 0);
+               wsum N (fun j : nat => nth 2 (nth j prof []) 0) / wsum N (fun j : nat => nth 3 (nth j prof []) 0)]
+              centre)
+           (sub3
+              [wsum N (fun j : nat => nth 0 (nth j prof []) 0) / wsum N (fun j : nat => nth 3 (nth j prof []) 0);
+               wsum N (fun j : nat => nth 1 (nth j prof []) 0) / wsum N (fun j : nat => nth 3 (nth j prof []) 0);
+               wsum N (fun j : nat => nth 2 (nth j prof []) 0) / wsum N (fun j : nat => nth 3 (nth j prof []) 0)]
+              centre) = r * r ->
+         let d :=
+           sub3
+             [((1 - v) * wsum N (fun j : nat => nth 0 (nth j (extrude_cps 3 true (scal3 h n) prof) []) 0) +
+               v * wsum N (fun j : nat => nth 0 (nth (length prof + j) (extrude_cps 3 true (scal3 h n) prof) []) 0)) /
+              ((1 - v) * wsum N (fun j : nat => nth 3 (nth j (extrude_cps 3 true (scal3 h n) prof) []) 0) +
+               v * wsum N (fun j : nat => nth 3 (nth (length prof + j) (extrude_cps 3 true (scal3 h n) prof) []) 0));
+              ((1 - v) * wsum N (fun j : nat => nth 1 (nth j (extrude_cps 3 true (scal3 h n) prof) []) 0) +
+               v * wsum N (fun j : nat => nth 1 (nth (length prof + j) (extrude_cps 3 true (scal3 h n) prof) []) 0)) /
+              ((1 - v) * wsum N (fun j : nat => nth 3 (nth j (extrude_cps 3 true (scal3 h n) prof) []) 0) +
+               v * wsum N (fun j : nat => nth 3 (nth (length prof + j) (extrude_cps 3 true (scal3 h n) prof) []) 0));
+              ((1 - v) * wsum N (fun j : nat => nth 2 (nth j (extrude_cps 3 true (scal3 h n) prof) []) 0) +
+               v * wsum N (fun j : nat => nth 2 (nth (length prof + j) (extrude_cps 3 true (scal3 h n) prof) []) 0)) /
+              ((1 - v) * wsum N (fun j : nat => nth 3 (nth j (extrude_cps 3 true (scal3 h n) prof) []) 0) +
+               v * wsum N (fun j : nat => nth 3 (nth (length prof + j) (extrude_cps 3 true (scal3 h n) prof) []) 0))]
+             centre in
+         dot3 d n = v * h /\ rad2 d n = r * r /\ (0 <= v <= 1 -> 0 <= h -> 0 <= dot3 d n <= h).
+Proof. exact @cylinder_from_extrude_net. Qed.
+Print Assumptions C13_cylinder_from_extrude_net.
+
+Theorem C13_solid_cylinder_from_extrude_net :
+  forall (prof : list (list R)) (N : list R) (v h : R) (n centre : list R),
+         length N = length prof ->
+         wsum N (fun j : nat => nth 3 (nth j prof []) 0) <> 0 ->
+         forall r : R,
+         dot3 n n = 1 ->
+         dot3
+           (sub3
+              [wsum N (fun j : nat => nth 0 (nth j prof []) 0) / wsum N (fun j : nat => nth 3 (nth j prof []) 0);
+               wsum N (fun j : nat => nth 1 (nth j prof []) 0) / wsum N (fun j : nat => nth 3 (nth j prof []) 0);
+               wsum N (fun j : nat => nth 2 (nth j prof []) 0) / wsum N (fun j : nat => nth 3 (nth j prof []) 0)]
+              centre) n = 0 ->
+         dot3
+           (sub3
+              [wsum N (fun j : nat => nth 0 (nth j prof []) 0) / wsum N (fun j : nat => nth 3 (nth j prof []) 0);
+               wsum N (fun j : nat => nth 1 (nth j prof []) 0) / wsum N (fun j : nat => nth 3 (nth j prof []) 0);
+               wsum N (fun j : nat => nth 2 (nth j prof []) 0) / wsum N (fun j : nat => nth 3 (nth j prof []) 0)]
+              centre)
+           (sub3
+              [wsum N (fun j : nat => nth 0 (nth j prof []) 0) / wsum N (fun j : nat => nth 3 (nth j prof []) 0);
+               wsum N (fun j : nat => nth 1 (nth j prof []) 0) / wsum N (fun j : nat => nth 3 (nth j prof []) 0);
+               wsum N (fun j : nat => nth 2 (nth j prof []) 0) / wsum N (fun j : nat => nth 3 (nth j prof []) 0)]
+              centre) <= r * r ->
+         let d :=
+           sub3
+             [((1 - v) * wsum N (fun j : nat => nth 0 (nth j (extrude_cps 3 true (scal3 h n) prof) []) 0) +
+               v * wsum N (fun j : nat => nth 0 (nth (length prof + j) (extrude_cps 3 true (scal3 h n) prof) []) 0)) /
+              ((1 - v) * wsum N (fun j : nat => nth 3 (nth j (extrude_cps 3 true (scal3 h n) prof) []) 0) +
+               v * wsum N (fun j : nat => nth 3 (nth (length prof + j) (extrude_cps 3 true (scal3 h n) prof) []) 0));
+              ((1 - v) * wsum N (fun j : nat => nth 1 (nth j (extrude_cps 3 true (scal3 h n) prof) []) 0) +
+               v * wsum N (fun j : nat => nth 1 (nth (length prof + j) (extrude_cps 3 true (scal3 h n) prof) []) 0)) /
+              ((1 - v) * wsum N (fun j : nat => nth 3 (nth j (extrude_cps 3 true (scal3 h n) prof) []) 0) +
+               v * wsum N (fun j : nat => nth 3 (nth (length prof + j) (extrude_cps 3 true (scal3 h n) prof) []) 0));
+              ((1 - v) * wsum N (fun j : nat => nth 2 (nth j (extrude_cps 3 true (scal3 h n) prof) []) 0) +
+               v * wsum N (fun j : nat => nth 2 (nth (length prof + j) (extrude_cps 3 true (scal3 h n) prof) []) 0)) /
+              ((1 - v) * wsum N (fun j : nat => nth 3 (nth j (extrude_cps 3 true (scal3 h n) prof) []) 0) +
+               v * wsum N (fun j : nat => nth 3 (nth (length prof + j) (extrude_cps 3 true (scal3 h n) prof) []) 0))]
+             centre in
+         dot3 d n = v * h /\ rad2 d n <= r * r /\ (0 <= v <= 1 -> 0 <= h -> 0 <= dot3 d n <= h).
+Proof. exact @solid_cylinder_from_extrude_net. Qed.
+Print Assumptions C13_solid_cylinder_from_extrude_net.
+
+Theorem C13_extrude_cartesian_rational :
+  forall (dim : nat) (amount : list R) (prof : list (list R)) (N : list R) (v : R),
+         length N = length prof ->
+         forall c : nat,
+         (c < dim)%nat ->
+         let net := extrude_cps dim true amount prof in
+         let H :=
+           fun k : nat =>
+           (1 - v) * wsum N (fun j : nat => nth k (nth j net []) 0) +
+           v * wsum N (fun j : nat => nth k (nth (length prof + j) net []) 0) in
+         let P := fun k : nat => wsum N (fun j : nat => nth k (nth j prof []) 0) in
+         P dim <> 0 -> H dim = P dim /\ H c / H dim = P c / P dim + v * nth c amount 0.
+Proof. exact @extrude_cartesian_rational. Qed.
+Print Assumptions C13_extrude_cartesian_rational.
+
+Theorem C13_radial_interpolation :
+  forall (r u : R) (centre Q n : list R),
+         0 <= r ->
+         0 <= u <= 1 ->
+         dot3 (sub3 Q centre) (sub3 Q centre) = r * r ->
+         let P := add3 (scal3 (1 - u) centre) (scal3 u Q) in
+         let d := sub3 P centre in
+         dot3 d d = u * r * (u * r) /\
+         sqrt (dot3 d d) = u * r /\ dot3 d d <= r * r /\ dot3 d n = u * dot3 (sub3 Q centre) n.
+Proof. exact @radial_interpolation. Qed.
+Print Assumptions C13_radial_interpolation.
+
+Theorem C13_disc_square_boundary :
+  forall r w b0 b1 b2 : R,
+         w * w = 1 / 2 ->
+         b1 * b1 = 4 * (b0 * b2) ->
+         let net := disc_square_net r w in
+         forall i0 i1 i2 : nat,
+         In (i0, i1, i2) [(0%nat, 1%nat, 2%nat); (6%nat, 7%nat, 8%nat); (0%nat, 3%nat, 6%nat); (2%nat, 5%nat, 8%nat)] ->
+         let P0 := nth i0 net [] in
+         let P1 := nth i1 net [] in
+         let P2 := nth i2 net [] in
+         blend3 hx P0 P1 P2 b0 b1 b2 * blend3 hx P0 P1 P2 b0 b1 b2 +
+         blend3 hy P0 P1 P2 b0 b1 b2 * blend3 hy P0 P1 P2 b0 b1 b2 =
+         r * r * (blend3 hw P0 P1 P2 b0 b1 b2 * blend3 hw P0 P1 P2 b0 b1 b2) /\ hw P0 = 1 /\ hw P1 = w /\ hw P2 = 1.
+Proof. exact @disc_square_boundary. Qed.
+Print Assumptions C13_disc_square_boundary.
+
+Theorem C13_disc_square_inside :
+  forall r w a0 a1 a2 b0 b1 b2 : R,
+         w * w = 1 / 2 ->
+         0 < w ->
+         0 <= a0 ->
+         0 <= a1 ->
+         0 <= a2 ->
+         0 <= b0 ->
+         0 <= b1 ->
+         0 <= b2 ->
+         a1 * a1 = 4 * (a0 * a2) ->
+         b1 * b1 = 4 * (b0 * b2) ->
+         a0 + a1 + a2 = 1 ->
+         b0 + b1 + b2 = 1 ->
+         let net := disc_square_net r w in
+         let X := blend33 hx net a0 a1 a2 b0 b1 b2 in
+         let Y := blend33 hy net a0 a1 a2 b0 b1 b2 in
+         let W := blend33 hw net a0 a1 a2 b0 b1 b2 in
+         0 < W /\ X * X + Y * Y <= r * r * (W * W) /\ X / W * (X / W) + Y / W * (Y / W) <= r * r.
+Proof. exact @disc_square_inside. Qed.
+Print Assumptions C13_disc_square_inside.
+
+Theorem C13_placement_frame :
+  forall cp sp ct st : R,
+         cp * cp + sp * sp = 1 ->
+         ct * ct + st * st = 1 ->
+         forall (centre : list R) (X Y Z : R),
+         let d := sub3 (place cp sp ct st centre [X; Y; Z]) centre in
+         dot3 d (nrm cp sp ct st) = Z /\ dot3 d d = X * X + Y * Y + Z * Z /\ rad2 d (nrm cp sp ct st) = X * X + Y * Y.
+Proof. exact @placement_frame. Qed.
+Print Assumptions C13_placement_frame.
+
+Theorem C13_sphere_factory_chain :
+  forall cp sp ct st : R,
+         cp * cp + sp * sp = 1 ->
+         ct * ct + st * st = 1 ->
+         forall (r ca sa : R) (centre : list R) (X Y Z : R),
+         ca * ca + sa * sa = 1 ->
+         X * X + Y * Y + Z * Z = r * r ->
+         let q1 := rv [X; Y; Z] (rotmat ca (0 - 0 * sa) (0 - 0 * sa) (0 - 1 * sa)) in
+         let Q := place cp sp ct st centre q1 in dot3 (sub3 Q centre) (sub3 Q centre) = r * r.
+Proof. exact @sphere_factory_chain. Qed.
+Print Assumptions C13_sphere_factory_chain.
+
+Theorem C13_torus_factory_chain :
+  forall cp sp ct st : R,
+         cp * cp + sp * sp = 1 ->
+         ct * ct + st * st = 1 ->
+         forall (r Rr ca sa : R) (centre : list R) (X Y Z : R),
+         ca * ca + sa * sa = 1 ->
+         (X * X + Y * Y + Z * Z + Rr * Rr - r * r) * (X * X + Y * Y + Z * Z + Rr * Rr - r * r) =
+         4 * (Rr * Rr) * (X * X + Y * Y) ->
+         let q1 := rv [X; Y; Z] (rotmat ca (0 - 0 * sa) (0 - 0 * sa) (0 - 1 * sa)) in
+         let d := sub3 (place cp sp ct st centre q1) centre in
+         (dot3 d d + Rr * Rr - r * r) * (dot3 d d + Rr * Rr - r * r) = 4 * (Rr * Rr) * rad2 d (nrm cp sp ct st).
+Proof. exact @torus_factory_chain. Qed.
+Print Assumptions C13_torus_factory_chain.
+
+Theorem C13_cylinder_placed :
+  forall cp sp ct st : R,
+         cp * cp + sp * sp = 1 ->
+         ct * ct + st * st = 1 ->
+         forall (r h v : R) (centre : list R) (x y : R),
+         x * x + y * y = r * r ->
+         let P := add3 (place cp sp ct st centre [x; y; 0]) (scal3 v (scal3 h (nrm cp sp ct st))) in
+         let d := sub3 P centre in
+         dot3 d (nrm cp sp ct st) = v * h /\
+         rad2 d (nrm cp sp ct st) = r * r /\ (0 <= v <= 1 -> 0 <= h -> 0 <= dot3 d (nrm cp sp ct st) <= h).
+Proof. exact @cylinder_placed. Qed.
+Print Assumptions C13_cylinder_placed.
+
+Theorem C13_solid_cylinder_placed :
+  forall cp sp ct st : R,
+         cp * cp + sp * sp = 1 ->
+         ct * ct + st * st = 1 ->
+         forall (r h v : R) (centre : list R) (x y : R),
+         x * x + y * y <= r * r ->
+         let P := add3 (place cp sp ct st centre [x; y; 0]) (scal3 v (scal3 h (nrm cp sp ct st))) in
+         let d := sub3 P centre in
+         dot3 d (nrm cp sp ct st) = v * h /\
+         rad2 d (nrm cp sp ct st) <= r * r /\ (0 <= v <= 1 -> 0 <= h -> 0 <= dot3 d (nrm cp sp ct st) <= h).
+Proof. exact @solid_cylinder_placed. Qed.
+Print Assumptions C13_solid_cylinder_placed.
+
